@@ -523,7 +523,11 @@ func (cc *Conn) prepareWriteMessage(req *pool.Message, handler HandlerFunc) (fun
 			return nil, fmt.Errorf("cannot insert mid(%v) handler: %w", req.MessageID(), coapErrors.ErrKeyAlreadyExists)
 		}
 		closeFns = append(closeFns, func() {
-			_, _ = cc.midHandlerContainer.LoadAndDelete(req.MessageID())
+			// release the private copy as well, so that a housekeeping tick which has already fetched
+			// this entry finds nothing left to retransmit once the call has returned
+			if elem, ok := cc.midHandlerContainer.LoadAndDelete(req.MessageID()); ok {
+				elem.ReleaseMessage(cc)
+			}
 		})
 	case message.NonConfirmable:
 		/* TODO need to acquireOutstandingInteraction
